@@ -203,6 +203,42 @@ func storeWritable(repo string) (string, error) {
 	}
 	b.WriteString("(* scope, [(name, (context field of a simple cell or \"\", type letter))] *)\n")
 	emit("writable", wt)
+	// names whose Set case assigns OTHER context fields too (documented couplings: gzip / brotli)
+	others := map[string][]string{}
+	ct, _, err := scan("Set", func(body []ast.Stmt) string {
+		own, os := coupledCell(body)
+		if len(os) == 0 {
+			return ""
+		}
+		others[own] = os
+		return own
+	})
+	if err != nil {
+		return "", err
+	}
+	b.WriteString("(* scope, name, (own context field, the OTHER context fields its Set case assigns as well) *)\n")
+	b.WriteString("Definition coupled : list (string * (string * (string * list string))) := [")
+	first := true
+	for _, sf := range scopeFiles {
+		for _, e := range ct[sf.scope] {
+			if e.field == "" {
+				continue
+			}
+			if !first {
+				b.WriteString(";")
+			}
+			first = false
+			fmt.Fprintf(&b, "\n  (%q, (%q, (%q, [", sf.scope, e.name, e.field)
+			for j, o := range others[e.field] {
+				if j > 0 {
+					b.WriteString("; ")
+				}
+				fmt.Fprintf(&b, "%q", o)
+			}
+			b.WriteString("])))")
+		}
+	}
+	b.WriteString("].\n\n")
 	rt, n, err := scan("Get", plainRead)
 	if err != nil {
 		return "", err
@@ -233,6 +269,46 @@ func plainRead(body []ast.Stmt) string {
 		}
 	}
 	return ""
+}
+
+// coupledFields: context fields the case body assigns DIRECTLY (v.ctx.X... = ...) other than `own`:
+// `set beresp.gzip = true` also clears ctx.BackendResponseBrotli (and the other way round). Such a name is not a
+// cell of its own: it is listed in the table `coupled`, not among the simple cells.
+func coupledFields(body []ast.Stmt, own string) []string {
+	seen := map[string]bool{}
+	var out []string
+	note := func(e ast.Expr) {
+		// find the selector right after `.ctx`
+		for {
+			sel, ok := e.(*ast.SelectorExpr)
+			if !ok {
+				return
+			}
+			if in, ok := sel.X.(*ast.SelectorExpr); ok && in.Sel.Name == "ctx" {
+				if sel.Sel.Name != own && !seen[sel.Sel.Name] {
+					seen[sel.Sel.Name] = true
+					out = append(out, sel.Sel.Name)
+				}
+				return
+			}
+			e = sel.X
+		}
+	}
+	for _, st := range body {
+		ast.Inspect(st, func(x ast.Node) bool {
+			switch a := x.(type) {
+			case *ast.AssignStmt:
+				for _, l := range a.Lhs {
+					note(l)
+				}
+			case *ast.IncDecStmt:
+				note(a.X)
+			}
+			return true
+		})
+	}
+	sort.Strings(out)
+	return out
 }
 
 // simpleCell: the body is `if err := doAssign(v.ctx.F, operator, val); err != nil {...}; return nil`
@@ -284,5 +360,31 @@ func simpleCell(body []ast.Stmt) string {
 	if other {
 		return ""
 	}
+	if len(coupledFields(body, field)) > 0 {
+		return ""
+	}
 	return field
+}
+
+// coupledCell: like simpleCell but for the cases that ALSO assign other context fields: (own field, the others)
+func coupledCell(body []ast.Stmt) (string, []string) {
+	own := ""
+	for _, st := range body {
+		ast.Inspect(st, func(x ast.Node) bool {
+			if call, ok := x.(*ast.CallExpr); ok {
+				if id, ok := call.Fun.(*ast.Ident); ok && id.Name == "doAssign" && len(call.Args) == 3 && own == "" {
+					if sel, ok := call.Args[0].(*ast.SelectorExpr); ok {
+						if in, ok := sel.X.(*ast.SelectorExpr); ok && in.Sel.Name == "ctx" {
+							own = sel.Sel.Name
+						}
+					}
+				}
+			}
+			return true
+		})
+	}
+	if own == "" {
+		return "", nil
+	}
+	return own, coupledFields(body, own)
 }
